@@ -430,3 +430,103 @@ func zzReplayPerEpoch() {
 	zzsymAssert(c.highestRemoteSequenceNumber(e1) == s1, "first_epoch_highest_unchanged")
 	zzsymCover("other_epoch_accepted")
 }
+
+// ---------------------------------------------------------------------------------------------
+// sequence numbers are reconstructed against the opening generation's own epoch
+// ---------------------------------------------------------------------------------------------
+
+// zzInSeqWindow20: expected-2^(b-1) < x <= expected+2^(b-1) on unbounded integers (all operands < 2^49).
+func zzInSeqWindow20(x, expected, half uint64) bool {
+	return zzsymAnd(x+half > expected, x <= expected+half)
+}
+
+// openCiphertextRecord / openCiphertextWithGeneration with per-epoch receive state: the receiver retains read
+// generations for epochs 3..3+n-1 (n = 2 or 3, the newest current, remote epoch = newest, so the read epoch has
+// advanced past the older ones); the highest sequence number received so far is an independent arbitrary 48-bit
+// value for every epoch (e.g. far above 65535 for the old epoch, small or still absent for the new one: the
+// RemoteSequenceNumber table is also tried one entry short); the record is sealed by any one of the generations,
+// with arbitrary clear sequence bits (8- or 16-bit form) under the sequence-number mask.
+// Proved, against a reference written from RFC 9147 4.2.2 (the value congruent to the wire bits modulo 2^b that
+// is closest to 1 + the highest number received IN THE EPOCH OF THE OPENING GENERATION): the number handed to
+// that generation's AEAD (nonce), the number returned for the replay window / delivery, and the reported epoch
+// are exactly the reference for the sealing generation's epoch - not the connection's current remote epoch, and
+// not any other retained epoch. So a record written under the old keys that arrives after the read epoch
+// advanced is still opened with its true record number whenever that lies within the reconstruction window of
+// its own epoch.
+//
+//symgo:entry covers=old_epoch_far_ahead_of_new,new_epoch_record,old_epoch_exact_number,no_highwater_yet
+func zzSeqPerEpoch() {
+	c, st := zzConn13(zzsymChoice("client", 2) == 1)
+	const base = 3
+	n := 2 + zzsymChoice("ngen", 2)
+	sealer := zzsymChoice("sealer", n)
+	prots := make([]*zzProt20, n)
+	for i := 0; i < n; i++ {
+		prots[i] = &zzProt20{clearSeq: zzsymU16("clear_seq"), authOK: i == sealer, realType: protocol.ContentTypeApplicationData}
+		st.TrafficKeys.Install(nil, &dtlsstate.TrafficGeneration{Epoch: uint16(base + i), Generation: uint64(i), Protection: prots[i]})
+	}
+	st.SetRemoteEpoch(uint16(base + n - 1))
+	// per-epoch high-water marks; optionally the newest epoch has no entry yet (nothing received under it)
+	common := dtlsstate.CommonState(c.state)
+	entries := base + n - zzsymChoice("newest_missing", 2)
+	high := make([]uint64, base+n)
+	for e := 0; e < entries; e++ {
+		h := zzsymU64("highest")
+		zzsymAssume(h <= recordlayer.MaxSequenceNumber)
+		common.RemoteSequenceNumber = append(common.RemoteSequenceNumber, h)
+		high[e] = h
+	}
+	wide := zzsymChoice("seqbit", 2) == 1
+	record := recordlayer.CiphertextRecord13{
+		Header: recordlayer.UnifiedHeader{
+			EpochLow: uint8((base + sealer) & 3), SeqBit: wide, SequenceNumber: zzsymU16("masked_seq"),
+		},
+		EncryptedRecord: zzsymBytes("enc", 2),
+	}
+
+	_, seq, epoch, err := c.openCiphertextRecord(record)
+
+	zzsymAssert(err == nil, "record_of_retained_authorised_generation_opened")
+	zzsymAssert(epoch == uint16(base+sealer), "reported_epoch_is_opening_generation")
+	used := prots[sealer]
+	zzsymAssert(used.opened == 1, "opening_generation_used_once")
+	zzsymAssert(seq == used.gotSeq, "reported_number_is_the_authenticated_one")
+
+	// reference reconstruction for the opening generation's epoch
+	bits := uint(8)
+	if wide {
+		bits = 16
+	}
+	window := uint64(1) << bits
+	half := window / 2
+	mask := window - 1
+	expected := high[base+sealer] + 1
+	got := used.gotSeq
+	zzsymAssert(got&mask == uint64(used.clearSeq)&mask, "number_agrees_with_unmasked_wire_bits")
+	// closest to expected: inside the half-open window around it, or - when the in-window representative would be
+	// negative - the smallest non-negative representative
+	zzsymAssert(zzsymOr(zzInSeqWindow20(got, expected, half), zzsymAnd(got < window, got > expected)),
+		"number_reconstructed_against_opening_epochs_highest")
+	// the sender's true number t (any value in the window of its own epoch with these wire bits) is recovered
+	t := zzsymU64("true_seq")
+	zzsymAssume(t <= recordlayer.MaxSequenceNumber)
+	zzsymAssume(t&mask == uint64(used.clearSeq)&mask)
+	if zzInSeqWindow20(t, expected, half) {
+		zzsymAssert(got == t, "true_number_in_own_epochs_window_recovered")
+		if sealer < n-1 {
+			zzsymCover("old_epoch_exact_number")
+		}
+	}
+	newest := high[base+n-1]
+	if sealer < n-1 {
+		if zzsymAnd(high[base+sealer] > 1<<20, newest < 256) {
+			zzsymCover("old_epoch_far_ahead_of_new")
+		}
+	} else {
+		zzsymCover("new_epoch_record")
+		if entries < base+n {
+			zzsymAssert(got < window, "first_record_of_epoch_reconstructed_below_one_window")
+			zzsymCover("no_highwater_yet")
+		}
+	}
+}
